@@ -173,7 +173,18 @@ impl<H: Hal, const SIZE: usize> VirtQueue<H, SIZE> {
         inputs: &'a [&'b [u8]],
         outputs: &'a mut [&'b mut [u8]],
     ) -> Result<u16> {
+        #[cfg(virtio_drivers_verif)]
+        crate::verif::emit(crate::verif::Event::AddBegin {
+            queue: self.queue_idx,
+            inputs,
+            outputs: &*outputs,
+        });
         if inputs.is_empty() && outputs.is_empty() {
+            #[cfg(virtio_drivers_verif)]
+            crate::verif::emit(crate::verif::Event::AddEnd {
+                queue: self.queue_idx,
+                result: Err(Error::InvalidParam),
+            });
             return Err(Error::InvalidParam);
         }
         let descriptors_needed = inputs.len() + outputs.len();
@@ -184,10 +195,20 @@ impl<H: Hal, const SIZE: usize> VirtQueue<H, SIZE> {
             || descriptors_needed > SIZE
             || (!self.indirect && self.num_used as usize + descriptors_needed > SIZE)
         {
+            #[cfg(virtio_drivers_verif)]
+            crate::verif::emit(crate::verif::Event::AddEnd {
+                queue: self.queue_idx,
+                result: Err(Error::QueueFull),
+            });
             return Err(Error::QueueFull);
         }
         #[cfg(not(feature = "alloc"))]
         if self.num_used as usize + descriptors_needed > SIZE {
+            #[cfg(virtio_drivers_verif)]
+            crate::verif::emit(crate::verif::Event::AddEnd {
+                queue: self.queue_idx,
+                result: Err(Error::QueueFull),
+            });
             return Err(Error::QueueFull);
         }
 
@@ -233,6 +254,11 @@ impl<H: Hal, const SIZE: usize> VirtQueue<H, SIZE> {
             queue: self.queue_idx,
             area: crate::verif::Area::AvailIdx,
             index: 0,
+        });
+        #[cfg(virtio_drivers_verif)]
+        crate::verif::emit(crate::verif::Event::AddEnd {
+            queue: self.queue_idx,
+            result: Ok(head),
         });
 
         Ok(head)
@@ -368,6 +394,12 @@ impl<H: Hal, const SIZE: usize> VirtQueue<H, SIZE> {
     ///
     /// See Virtio v1.1 2.6.7 Used Buffer Notification Suppression
     pub fn set_dev_notify(&mut self, enable: bool) {
+        #[cfg(virtio_drivers_verif)]
+        crate::verif::emit(crate::verif::Event::SetDevNotify {
+            queue: self.queue_idx,
+            enable,
+            done: false,
+        });
         let avail_ring_flags = if enable { 0x0000 } else { 0x0001 };
         if !self.event_idx {
             // SAFETY: `self.avail` points to a valid, aligned, initialised, dereferenceable, readable
@@ -384,6 +416,12 @@ impl<H: Hal, const SIZE: usize> VirtQueue<H, SIZE> {
                 index: 0,
             });
         }
+        #[cfg(virtio_drivers_verif)]
+        crate::verif::emit(crate::verif::Event::SetDevNotify {
+            queue: self.queue_idx,
+            enable,
+            done: true,
+        });
     }
 
     /// Returns whether the driver should notify the device after adding a new buffer to the
@@ -391,6 +429,10 @@ impl<H: Hal, const SIZE: usize> VirtQueue<H, SIZE> {
     ///
     /// This will be false if the device has suppressed notifications.
     pub fn should_notify(&self) -> bool {
+        #[cfg(virtio_drivers_verif)]
+        crate::verif::emit(crate::verif::Event::ShouldNotify {
+            queue: self.queue_idx,
+        });
         if self.event_idx {
             // SAFETY: `self.used` points to a valid, aligned, initialised, dereferenceable, readable
             // instance of `UsedRing`.
@@ -570,7 +612,19 @@ impl<H: Hal, const SIZE: usize> VirtQueue<H, SIZE> {
         inputs: &'a [&'a [u8]],
         outputs: &'a mut [&'a mut [u8]],
     ) -> Result<u32> {
+        #[cfg(virtio_drivers_verif)]
+        crate::verif::emit(crate::verif::Event::PopBegin {
+            queue: self.queue_idx,
+            token,
+            inputs,
+            outputs: &*outputs,
+        });
         if !self.can_pop() {
+            #[cfg(virtio_drivers_verif)]
+            crate::verif::emit(crate::verif::Event::PopEnd {
+                queue: self.queue_idx,
+                result: Err(Error::NotReady),
+            });
             return Err(Error::NotReady);
         }
 
@@ -587,6 +641,11 @@ impl<H: Hal, const SIZE: usize> VirtQueue<H, SIZE> {
 
         if index != token {
             // The device used a different descriptor chain to the one we were expecting.
+            #[cfg(virtio_drivers_verif)]
+            crate::verif::emit(crate::verif::Event::PopEnd {
+                queue: self.queue_idx,
+                result: Err(Error::WrongToken),
+            });
             return Err(Error::WrongToken);
         }
 
@@ -612,6 +671,11 @@ impl<H: Hal, const SIZE: usize> VirtQueue<H, SIZE> {
             });
         }
 
+        #[cfg(virtio_drivers_verif)]
+        crate::verif::emit(crate::verif::Event::PopEnd {
+            queue: self.queue_idx,
+            result: Ok(len),
+        });
         Ok(len)
     }
 }
